@@ -148,6 +148,7 @@ template<>
 struct BT<SimSbx>
 {
   static constexpr bool foreign = true;
+  static constexpr bool wide_guest = sizeof(SimSbx::T_IntType) > sizeof(int); // build `wide`: the guest's int has 64 bits
   static void create(rlbox::rlbox_sandbox<SimSbx>& sb) { sb.create_sandbox(0); }
   template<class O>
   static long multi(rlbox::rlbox_sandbox<SimSbx>& sb, O& owner, long a, unsigned b, int times)
@@ -161,6 +162,7 @@ template<>
 struct BT<NoopSbx>
 {
   static constexpr bool foreign = false;
+  static constexpr bool wide_guest = false;
   static void create(rlbox::rlbox_sandbox<NoopSbx>& sb) { sb.create_sandbox(); }
   static inline bool nameless = false; // this run invokes through the bare function pointer, without a name
   template<class O>
@@ -254,6 +256,9 @@ struct Runner
       expt.push_back(ExpTiming{ n.s, 1, enter_read, model_reads++, false });
     };
     try {
+      if (BT<Sbx>::wide_guest && a.hit())
+        throw SimAbort(); // the guest passes an argument that the application's type cannot hold: the callback is left
+                          // (announced) but its body never runs
       if (a.hit())
         throw SimAbort(); // body aborts at its start
       if (ch.change_state)
@@ -400,10 +405,17 @@ struct Runner
     g_hooks.clear();
     g_body = [&](void* sbx) { return body(sbx); };
 #ifdef TR_TIMING
+    // some crossings happen before the records are cleared: neither the records nor the totals may remember them
+    if (((uint64_t)op.a[5] >> 14) & 1) {
+      for (int s = 0; s < nsbx; s++)
+        attempt([&] { BT<Sbx>::multi(*sb[(size_t)s], *own[(size_t)(s * 2)], 5, 1u, 0); });
+      c.probe("crossings_before_the_records_were_cleared");
+    }
     for (auto& s : sb)
       s->clear_transition_times();
     reads_before_root = g_clock_reads.size();
 #endif
+    g_hooks.clear(); // (again: the warm-up crossings above are not part of the tree)
     // model first (its own controller and state copy)
     AbortCtl mctl = ctl;
     std::vector<void*> mstate = state;
@@ -603,7 +615,7 @@ struct TransitionWorld : World
     o.a[2] = (int64_t)r.below(3);
     o.a[3] = r.chance(1, 6) ? 0 : (int64_t)r.range(1, 30);
     o.a[4] = r.chance(2, 3) ? 0 : (int64_t)r.range(1, 40);
-    o.a[5] = (int64_t)r.below(256) | ((int64_t)r.below(16) << 8) | ((int64_t)r.below(4) << 12);
+    o.a[5] = (int64_t)r.below(256) | ((int64_t)r.below(16) << 8) | ((int64_t)r.below(4) << 12) | ((int64_t)r.below(2) << 14);
     p.ops.push_back(o);
     return p;
   }
@@ -693,7 +705,9 @@ static AbortCtl*& guest_ctl()
 {
   return Runner<SimSbx>::g_guest_ctl;
 }
-static int32_t sim_guest_multi(uint32_t idx, int32_t a, uint32_t b, int32_t times)
+using GInt = SimSbx::T_IntType;
+using GUInt = std::make_unsigned_t<GInt>;
+static int32_t sim_guest_multi(uint32_t idx, int32_t a, GUInt b, GInt times)
 {
   AbortCtl* ctl = guest_ctl();
   uint32_t acc = 0;
@@ -703,7 +717,13 @@ static int32_t sim_guest_multi(uint32_t idx, int32_t a, uint32_t b, int32_t time
         g_ctx->fired("F9_guest_trap");
       throw GuestTrap{ "scripted guest trap" };
     }
-    int32_t r = SimSbx::guest_call<int32_t, int32_t, uint32_t>(idx, a + i, b);
+    GUInt bb = b;
+    if (BT<SimSbx>::wide_guest && ctl && ctl->hit()) {
+      if (g_ctx)
+        g_ctx->fired("F9_unrepresentable_callback_argument");
+      bb = (GUInt)((uint64_t)1 << 40);
+    }
+    int32_t r = SimSbx::guest_call<int32_t, int32_t, GUInt>(idx, a + i, bb);
     acc = acc * 31u + (uint32_t)r;
   }
   if (ctl && ctl->hit()) {
